@@ -24,13 +24,21 @@ LEVEL_TEXT = ("Proved in Lean for the model, for every history of builder calls 
               "multi-valued argument and it is last, no required argument after an optional one) is preserved by every "
               "call, a rejected single addition leaves the builder unchanged, the built format answers every public "
               "query exactly as the builder does, every predicate/lookup equals its declarative meaning over the listed "
-              "elements, and ArgsFormat(elements, base) is the fold of the single additions.  The model is tied to the "
+              "elements, and ArgsFormat(elements, base) is the fold of the single additions.  The hypotheses of these "
+              "theorems are discharged: the well-formedness of the elements is decided by the model on the names read "
+              "from the real element objects of every case (entry c06.wf, theorem wf_decides) and compared with true; "
+              "the well-formedness of the base is proved for every format that can exist (built_inv: the closure of None "
+              "under ArgsFormat(elements, base) and ArgsFormatBuilder(base)...format; built_bases_inv for chains of "
+              "element-list constructors), so reachable_inv_decided / ctor_inv_decided / built_consistent have decidable "
+              "hypotheses only.  "
+              "The model is tied to the "
               "code by comparing, after every operation, the exception class and all public queries of builder and "
               "built format (ordered listings included) on bounded-exhaustive and random operation sequences.")
 LEVEL_NOTE = ("Trusted: Lean kernel + propext/Quot.sound/Classical.choice; the hand-written model is validated by the "
               "correspondence run only (modelled, not verified).  Element constructors (name validation, flag "
-              "normal forms) are C07's subject: the theorems assume what they guarantee (long names/aliases have at "
-              "least two characters, short names/aliases exactly one).")
+              "normal forms) are C07's subject: the theorems need what they guarantee (long names/aliases have at "
+              "least two characters, short names/aliases exactly one) - no longer assumed: decided by Op.wfB / Elem.wfB "
+              "on every real element of every case (c06.wf) and compared with true.")
 LEAN_MODULES = ["Clikit.Props.C06"]
 REQUIRED_THEOREMS = ["Clikit.Props.C06.step_atomic_inv", "Clikit.Props.C06.reachable_inv",
                      "Clikit.Props.C06.format_agrees", "Clikit.Props.C06.format_inv",
@@ -38,7 +46,10 @@ REQUIRED_THEOREMS = ["Clikit.Props.C06.step_atomic_inv", "Clikit.Props.C06.reach
                      "Clikit.Props.C06.set_is_clear_then_add", "Clikit.Props.C06.multi_add_prefix",
                      "Clikit.Props.C06.queries_match_elements", "Clikit.Props.C06.queries_match_elements_builder",
                      "Clikit.Props.C06.names_identify_at_most_one", "Clikit.Props.C06.argument_rules",
-                     "Clikit.Props.C06.listing_order", "Clikit.Props.C06.lookups_raise_documented_only"]
+                     "Clikit.Props.C06.listing_order", "Clikit.Props.C06.lookups_raise_documented_only",
+                     "Clikit.Props.C06.wf_decides", "Clikit.Props.C06.built_bases_inv",
+                     "Clikit.Props.C06.reachable_inv_decided", "Clikit.Props.C06.ctor_inv_decided",
+                     "Clikit.Props.C06.built_inv", "Clikit.Props.C06.built_consistent"]
 RULE = ("cases = (0-2 base levels built with ArgsFormat(elements, base)) x (sequence of builder calls); quick: every "
         "sequence of length <= 3 over a reduced pool of 14 calls on 4 base configurations, then random sequences of "
         "length 4-7 over the full pool (20 elements with colliding long/short names and aliases, set_*/add_* with "
@@ -53,7 +64,11 @@ TRUSTED_BASE = [
 ]
 ASSUMPTIONS = [
     "elements are what the constructors produce: long names and long aliases have >= 2 characters, short names and "
-    "short aliases exactly 1 (hypothesis `wf` of the theorems; C07)",
+    "short aliases exactly 1 (hypothesis `wf` of the theorems; C07) - checked, not assumed: the model decides it on the "
+    "names read from the real objects of every case (c06.wf == true is part of the correspondence)",
+    "a base format is itself a built format (ArgsFormat(elements, base) or builder.format - the only constructors); "
+    "for such formats the hypothesis InvBase is a theorem (built_inv over the inductive closure `Built`; that ArgsFormat "
+    "has no other constructor and no mutator is read off the class, not proved)",
     "a format is only observed through its public queries; the list returned by get_command_names(False) is "
     "shared between builder and format (aliasing is outside the functional model)",
 ]
@@ -438,24 +453,60 @@ def _strip_op(op):
     return {"op": op["op"], "es": [_strip(e) for e in op["es"]]}
 
 
+def _case_elements(case):
+    if case["kind"] == "config":
+        return [e for lv in case["levels"] for e in lv["adds"]]
+    es = [e for lvl in case["bases"] for e in lvl]
+    if case["kind"] == "run":
+        for op in case["ops"]:
+            es.extend([op["e"]] if "e" in op else op["es"])
+    else:
+        es.extend(case["elements"])
+    return es
+
+
+def _real_elements(case):
+    """the options / command options of the case as the REAL constructors made them: the names are read from the
+    objects (Option(long, short, 0, description) is also the call Config.add_option makes), one entry per element"""
+    objs = _Objs()
+    out, seen = [], set()
+    for e in _case_elements(case):
+        if e["k"] not in ("opt", "copt") or e["tag"] in seen:
+            continue
+        seen.add(e["tag"])
+        o = objs.get(e)
+        d = {"k": e["k"], "long": o.long_name, "short": o.short_name, "tag": e["tag"]}
+        if e["k"] == "copt":
+            d["la"], d["sa"] = list(o.long_aliases), list(o.short_aliases)
+        out.append(d)
+    return out
+
+
 def model_requests(case):
     common = {"names": PROBE_NAMES, "idx": PROBE_IDX}
+    # the hypotheses `wf` of the theorems (Props.C06.wf_decides), decided by the model on the real element objects
+    wf = {"m": "c06.wf", "elems": _real_elements(case)}
     if case["kind"] == "config":
         return [dict(common, m="c06.config", levels=[
             {"name": lv["name"], "anonymous": lv["anonymous"], "adds": [_strip(e) for e in lv["adds"]]}
-            for lv in case["levels"]])]
+            for lv in case["levels"]]), wf]
     bases = [[_strip(e) for e in lvl] for lvl in case["bases"]]
     if case["kind"] == "run":
         return [dict(common, m="c06.run", bases=bases, ops=[_strip_op(o) for o in case["ops"]],
-                     snap_all=bool(case["snap_all"]))]
-    return [dict(common, m="c06.ctor", bases=bases, elements=[_strip(e) for e in case["elements"]])]
+                     snap_all=bool(case["snap_all"])), wf]
+    return [dict(common, m="c06.ctor", bases=bases, elements=[_strip(e) for e in case["elements"]]), wf]
 
 
 def model_obs(case, answers):
-    return answers[0]
+    return dict(answers[0], wf=answers[1]["wf"])
 
 
 def impl_view(case, obs):
+    # every element the constructors accept is well formed (C07): the model's decision must be `true`
+    return dict(_impl_view(case, obs), wf=True)
+
+
+def _impl_view(case, obs):
     if case["kind"] == "config":
         return obs
     if obs["bases"] != "ok":
